@@ -323,7 +323,23 @@ impl SessionManager {
         override_value: Option<u64>,
     ) -> bool {
         let limit = self.effective_max_connections_per_ip(override_value);
+        #[cfg(sozu_verif)]
+        let verif_emit = |res: bool| {
+            if crate::verif::enabled() {
+                crate::verif::emit_s(
+                    "sm_at_limit",
+                    &[
+                        ("token", token.0 as i64),
+                        ("limit", limit as i64),
+                        ("res", res as i64),
+                    ],
+                    &[("cluster", cluster_id.to_owned()), ("ip", ip.to_string())],
+                );
+            }
+        };
         if limit == 0 {
+            #[cfg(sozu_verif)]
+            verif_emit(false);
             return false;
         }
         // Pure query: the limit==0 branch already returned, so any work below
@@ -348,12 +364,18 @@ impl SessionManager {
                     .is_some_and(|c| *c > 0),
                 "a tracked (token, cluster, ip) slot must have a positive forward count"
             );
+            #[cfg(sozu_verif)]
+            verif_emit(false);
             return false;
         }
-        self.connections_per_cluster_ip
+        let at_limit = self
+            .connections_per_cluster_ip
             .get(cluster_id)
             .and_then(|by_ip| by_ip.get(ip))
-            .is_some_and(|c| (*c as u64) >= limit)
+            .is_some_and(|c| (*c as u64) >= limit);
+        #[cfg(sozu_verif)]
+        verif_emit(at_limit);
+        at_limit
     }
 
     /// Account `token`'s active connection against `(cluster, ip)`.
@@ -3326,6 +3348,9 @@ impl Server {
                 ),
                 "accept queue must only hold listen protocols, got {protocol:?}"
             );
+            // the slab key the new session's frontend will occupy
+            #[cfg(sozu_verif)]
+            let verif_token = self.sessions.borrow().slab.vacant_key();
             match protocol {
                 Protocol::TCPListen => {
                     let proxy = self.tcp.clone();
@@ -3367,6 +3392,8 @@ impl Server {
                 "create_done",
                 &[
                     ("port", _peer.map(|p| p.port() as i64).unwrap_or(-1)),
+                    ("token", verif_token as i64),
+                    ("present", self.sessions.borrow().slab.contains(verif_token) as i64),
                     ("slab", self.sessions.borrow().slab.len() as i64),
                 ],
             );
